@@ -436,5 +436,24 @@ theorem gen_rotate_vector_gate (s : Scheme) :
 theorem gen_complex_conjugate_gate (s : Scheme) :
     GenGal.complex_conjugate_inplace s = if s = .ckks then .ok [2] else .error .refused := HC.gal_complex_conjugate_gate s
 
+/-! `switch_key_inplace_internal` (fragments, see tools/rs2lean_gal.py): the prologue's refusals = the gate of the model's `switchKey`; the key-level
+    modulus / NTT-table index used for RNS index i of the accumulation loop (i = 0 .. dsz, `rns_modulus_size = dsz + 1`) = `keyIndex` of `ksAccumulate`:
+    the special prime is the LAST key-level modulus (`ksz − 1`), not the modulus after the level's own ones (`dsz`) — they differ below the first level. -/
+theorem gen_switch_key_prologue_eq (scheme : Scheme) (ntt : Bool) (index nkeys : Nat) :
+    GenGal.switch_key_prologue scheme ntt true true true index nkeys =
+      if index ≥ nkeys then .error .refused
+      else (match scheme with
+            | .bfv => if ntt then Except.error Err.refused else pure ()
+            | _ => if !ntt then Except.error Err.refused else pure ()) >>= fun _ => .ok [] := HC.gal_switch_prologue_eq scheme ntt index nkeys
+theorem gen_switch_key_prologue_refuses (scheme : Scheme) (ntt valid usingKs keysOk : Bool) (index nkeys : Nat)
+    (h : valid = false ∨ usingKs = false ∨ keysOk = false) :
+    GenGal.switch_key_prologue scheme ntt valid usingKs keysOk index nkeys = .error .refused :=
+  HC.gal_switch_prologue_refuses scheme ntt valid usingKs keysOk index nkeys h
+theorem gen_switch_key_indices_eq (dsz ksz : Nat) (hd : dsz + 1 < 2^64) (hk : 1 ≤ ksz) :
+    GenGal.switch_key_indices dsz ksz = .ok ((List.range (dsz + 1)).map (fun i => if i = dsz then ksz - 1 else i)) :=
+  HC.gal_switch_indices_eq dsz ksz hd hk
+/-- non-vacuity: a ciphertext two levels below a 4-prime key level (dsz = 1, ksz = 4): indices [0, 3] -/
+example : GenGal.switch_key_indices 1 4 = .ok [0, 3] := by decide
+
 
 end HC.C04
